@@ -57,8 +57,30 @@ def httpStep (ws : List String) : String :=
 def grpcStep (ws : List String) : String :=
   match ws with
   | "grpc" :: ty :: rest =>
-    let cfg : Str := if field rest "clustercfg" == "1" then bytesOf "x" else []
+    let cfg : Str := if field rest "clustercfg" == "1" then bytesOf "xyzw" else []
     match grpcDecide true cfg (bytesOf ty) (field rest "session" == "1") (field rest "clustervalid" == "1") with
+    | .serverCheck => "servercheck"
+    | .forbidden403 => "403"
+    | .clusterTokenInvalid500 => "500"
+    | .dispatched => "dispatched"
+  | _ => "bad-op"
+
+/-- the same through `fill_token_session` (the gRPC service object): which headers the payload carries.  The node's
+cluster token is `x` when `clustercfg=1` (the harness starts it with RNACOS_CLUSTER_TOKEN=x), else none -/
+def grpcsrvStep (ws : List String) : String :=
+  match ws with
+  | "grpcsrv" :: ty :: rest =>
+    let cfg : Str := if field rest "clustercfg" == "1" then bytesOf "xyzw" else []
+    let ut : Option Str := match field rest "token" with
+      | "empty" => some [] | "valid" => some (bytesOf "tok-valid") | "garbage" => some (bytesOf "zzz-garbage") | _ => none
+    let ch : Option Str := match field rest "ctoken" with
+      | "empty" => some [] | "prefix" => some (cfg.take (cfg.length / 2)) | "exact" => some cfg
+      | "longer" => some (cfg ++ bytesOf "x") | "garbage" => some (List.replicate (max cfg.length 1) 113) | _ => none
+    let f := grpcFill true ut apiHasSession cfg ch
+    -- the service object first looks the connection up among the registered bi-streams (`ActiveClinet`); the harness'
+    -- connection has none: every type outside `ignore_active_err` (= server check + the cluster types) is refused with 301
+    if !(Gen.grpcCluster.contains (bytesOf ty) || bytesOf ty == Gen.grpcServerCheck) then "301" else
+    match grpcDecide true cfg (bytesOf ty) f.1 f.2 with
     | .serverCheck => "servercheck"
     | .forbidden403 => "403"
     | .clusterTokenInvalid500 => "500"
@@ -98,6 +120,7 @@ def step (_ : Unit) (ws : List String) : Unit × String :=
   match ws.headD "" with
   | "http" => ((), httpStep ws)
   | "grpc" => ((), grpcStep ws)
+  | "grpcsrv" => ((), grpcsrvStep ws)
   | "perm" => ((), permStep ws)
   | "chttp" => ((), chttpStep ws)
   | _ => ((), "bad-op")
@@ -121,6 +144,17 @@ def specOpenapi (op ans : List String) : String :=
       | ["forbid"] => "spec ok"
       | ["pass", "reached=0"] => "spec ok"
       | _ => s!"spec FAIL data endpoint {field rest "canon"} reached without a valid token"
+  | "grpcsrv" :: ty :: rest =>
+    -- through the service object: the session comes from the user token header, the cluster authentication from the
+    -- cluster token header - and only the configured token itself authenticates
+    let t := bytesOf ty
+    if field rest "token" == "valid" then "-"
+    else if grpcDataTypes.contains t then
+      (if ans == ["403"] || ans == ["301"] then "spec ok" else s!"spec FAIL gRPC data request {ty} not refused without a valid token")
+    else if grpcClusterTypes.contains t && field rest "clustercfg" == "1" && field rest "ctoken" != "exact" then
+      (if ans == ["500"] || ans == ["403"] then "spec ok"
+       else s!"spec FAIL cluster request {ty} accepted with cluster token '{field rest "ctoken"}' (not the configured one)")
+    else "-"
   | "grpc" :: ty :: rest =>
     let t := bytesOf ty
     if field rest "session" == "1" then "-"
